@@ -14,7 +14,7 @@ use neurons::tensor::Tensor;
 pub fn meta(ctx: &Ctx) -> Meta {
     let d = depth(ctx);
     Meta {
-        rule: format!("block layer lists {{[dense],[dense,dense],[conv],[conv,conv],[deconv],[conv,deconv]}} x bias on/off x loops 1..3 x coupling {{add,subtract,multiply,mean}} x optimizers {{SGD, SGD with learning rate 1e-6, SGDM, Adam, AdamW, RMSprop}} x block first / between other layers; actions {{learn(A, batch 1), learn(B, 3 samples, batch 2), learn(A+B, batch 5, 2 epochs)}}; ALL action sequences of length <= {}. Invariant in every state (initial state included): all unrolled copies of each block layer hold bit-identical weights, biases and kernels (NaN = NaN), and the `parameters:` line of Display counts each shared parameter once. States = histories; transitions = learn() calls; non-trivial = states in which the block's weights differ from their initial values", d),
+        rule: format!("block layer lists {{[dense],[dense,dense],[conv],[conv,conv],[deconv],[conv,deconv]}} x bias on/off x loops 1..3 (5, 6, 8 for three of the lists) x coupling {{add,subtract,multiply,mean}} x optimizers {{SGD, SGD with learning rate 1e-6, SGDM, Adam, AdamW, RMSprop}} x block first / between other layers; actions {{learn(A, batch 1), learn(B, 3 samples, batch 2), learn(A+B, batch 5, 2 epochs)}}; ALL action sequences of length <= {}. Invariant in every state (initial state included): all unrolled copies of each block layer hold bit-identical weights, biases and kernels (NaN = NaN), and the `parameters:` line of Display counts each shared parameter once. States = histories; transitions = learn() calls; non-trivial = states in which the block's weights differ from their initial values", d),
         bound: format!("history depth {}; complete over the configuration product", d),
         exhaustive: true,
         assumptions: vec!["overwrite coupling is explicitly unimplemented in the library and outside the statement".into()],
@@ -60,8 +60,10 @@ pub fn configs() -> Vec<Net> {
             lists.push((Dims::Chw(1, 3, 3), vec![], vec![conv(2), deconv(1)]));
             lists.push((Dims::Chw(1, 3, 3), vec![conv(1)], vec![conv(1)]));
         }
-        for (input, before, list) in lists {
-            for loops in 1..=3usize {
+        for (li, (input, before, list)) in lists.into_iter().enumerate() {
+            // beyond the small bound: 5, 6 and 8 repetitions for the first block lists
+            let loop_counts: Vec<usize> = if li < 2 || li == 3 { vec![1, 2, 3, 5, 6, 8] } else { vec![1, 2, 3] };
+            for loops in loop_counts {
                 for acc in [Acc::Add, Acc::Sub, Acc::Mul, Acc::Mean] {
                     let mut layers = before.clone();
                     layers.push(L::Fb { layers: list.clone(), loops, inskips: false, outskips: false, acc });
